@@ -7,6 +7,11 @@ mod partition_segment;
 pub mod storage;
 pub mod wal_segment;
 
+#[cfg(locustdb_verif)]
+pub use self::file_writer::{BlobWriter, FileBlobWriter, VersionedChecksummedBlobWriter};
+#[cfg(locustdb_verif)]
+pub use self::partition_segment::PartitionSegment;
+
 lazy_static! {
     static ref RT: tokio::runtime::Runtime = tokio::runtime::Runtime::new().unwrap();
 }
